@@ -1,7 +1,77 @@
-(* C03 - placeholder, replaced below *)
+(* C03 — Block and flow structure parses to the node tree the document denotes: THE PARSER HALF.
+   For every layout tree t of the token grammar (Spec/TokenGrammar.v: scalars, aliases, left-out nodes, properties-only
+   nodes, block sequences, indentless sequences, block mappings, flow sequences with wrapped and unwrapped single pairs,
+   flow mappings; Key / Value tokens present or absent, trailing FlowEntry, properties in either order) the parser model
+   run on the tokens wrap es ee (tokens_of t), with ARBITRARY spans, emits exactly wrap_events es (events_of t) and ends
+   normally.  The scanner half (text -> tokens) is covered by the differential runs of vlib/p_c03.py.
+   Only statements, each closed by [exact] of a lemma proved in Proofs/TokenGrammarProofs.v, with Print Assumptions. *)
 From Coq Require Import List NArith Bool.
 Import ListNotations.
-Require Import Parser TokenGrammar.
-Theorem C03_placeholder : tokens_of LNone = [].
-Proof. exact eq_refl. Qed.
-Print Assumptions C03_placeholder.
+Require Import Parser SBase SFetch Pipe Drivers TokenGrammar TokenGrammarProofs.
+
+(* The statement, parameterised by the well-formedness predicate on (explicit document start?, root). *)
+Definition C03_tokens_statement (WF : bool -> ltree -> bool) : Prop :=
+  forall t es ee (toks : list token) keep se fuel,
+    WF es t = true ->                               (* the layout may stand where it stands *)
+    bound [] env0 (pre_events t) = true ->          (* aliases refer to earlier anchors, tag handles are ! / !! / verbatim *)
+    map snd toks = wrap es ee (tokens_of t) ->      (* any spans *)
+    (length (wrap_events es (events_of t)) < fuel)%nat ->
+    map fst (fst (parse_all fuel (init_p toks keep) se [])) = wrap_events es (events_of t) /\
+    snd (parse_all fuel (init_p toks keep) se []) = PDone.
+
+(* FULL statement: every layout YAML 1.2 admits.  NOT proved: it is false for the unchanged parser on
+   LFSeq _ [inr (LNone, _)] _  (`[ ? ]`, `[ ? : x ]`; recorded finding explicit-key-indicator-without-key-in-flow-sequence). *)
+Definition C03_tokens_full : Prop := C03_tokens_statement wf_root_full.
+
+(* PROVED: all nine constructors (LScalar, LAlias, LNone in every slot that allows it, LProps, LBSeq, LISeq, LBMap, LFSeq,
+   LFMap), every combination of present/absent Key and Value tokens that the grammar allows, trailing FlowEntry, one
+   document with or without '---' / '...'.  The only difference to C03_tokens_full: in an UNWRAPPED single pair of a flow
+   sequence (inr (k, (vt, v))) the key k is not LNone.  Not covered: several documents per stream, %YAML / %TAG directives
+   (p_tags = []), and the bound "fuel = 4 * tokens + 40 suffices" of parse_tokens (fuel is a hypothesis here). *)
+Theorem C03_tokens_partial : C03_tokens_statement wf_root.
+Proof. exact parse_wrap. Qed.
+Print Assumptions C03_tokens_partial.
+
+(* The continuation lemma behind it, for EVERY tree and every parser state whose top continuation is s:
+   parsing tokens_of t ++ x :: rest from there emits the events of t (anchor ids continuing the parser's counter, aliases
+   looked up in the parser's anchor table, tags resolved with the parser's tag table) and resumes in state s with x :: rest. *)
+Theorem C03_node_continuation : forall t, NodeSpec t.
+Proof. exact node_spec. Qed.
+Print Assumptions C03_node_continuation.
+
+(* parse_tokens (the entry point the correspondence runs execute on the implementation's real tokens) is this parser *)
+Theorem C03_parse_tokens : forall t es ee (toks : list token) keep se,
+    wf_root es t = true -> bound [] env0 (pre_events t) = true ->
+    map snd toks = wrap es ee (tokens_of t) ->
+    (length (wrap_events es (events_of t)) < 4 * length toks + 40)%nat ->
+    map fst (fst (parse_tokens toks se keep)) = wrap_events es (events_of t) /\ snd (parse_tokens toks se keep) = PDone.
+Proof. exact (fun t es ee toks keep se Hw Hb Hm Hf => parse_wrap t es ee toks keep se _ Hw Hb Hm Hf). Qed.
+Print Assumptions C03_parse_tokens.
+
+(* ---- the hypotheses are satisfiable and the statement is not vacuous ---- *)
+Definition c03_pr (a : option str) (tg : option (str * str)) : props := {| pr_anchor := a; pr_tag := tg; pr_tag_first := true |}.
+(* &a !t { k: [x, *a, ? y], : ~ }  inside a block sequence with a left-out entry and a block mapping whose value is an
+   indentless sequence *)
+Definition c03_example : ltree :=
+  LBSeq no_props
+    [ LNone;
+      LFMap (c03_pr (Some [97%N]) (Some ([33%N], [116%N])))
+        [ (true, LScalar no_props Plain [107%N],
+           (true, LFSeq no_props [inl (LScalar no_props Plain [120%N]); inl (LAlias [97%N]);
+                                  inr (LScalar no_props Plain [121%N], (false, LNone))] true));
+          (false, LNone, (true, LNone)) ] false;
+      LBMap no_props [ (true, LScalar no_props DoubleQuoted [], (true, LISeq no_props [LScalar no_props Literal [10%N]; LNone]));
+                       (true, LNone, (false, LNone)) ] ].
+Example c03_example_wf : wf_root false c03_example = true /\ bound [] env0 (pre_events c03_example) = true.
+Proof. vm_compute. split; reflexivity. Qed.
+Example c03_example_events :
+  map fst (fst (parse_tokens (map (fun k => (span_empty {| m_index := 0; m_line := 0; m_col := 0 |}, k)) (wrap false true (tokens_of c03_example))) SEnded false))
+  = wrap_events false (events_of c03_example)
+  /\ length (events_of c03_example) = 25%nat.
+Proof. vm_compute. split; reflexivity. Qed.
+(* wf is not "accept everything": a block sequence inside a flow sequence, a left-out flow-sequence entry *)
+Example c03_wf_rejects :
+  wf_root false (LFSeq no_props [inl (LBSeq no_props [])] false) = false /\
+  wf_root false (LFSeq no_props [inl LNone] false) = false /\
+  wf_root false LNone = false /\ wf_root true LNone = true.
+Proof. vm_compute. repeat split; reflexivity. Qed.
